@@ -179,4 +179,18 @@ CHECKS = {
                 replay_variant="plain+min0", assumptions=LOG_ASSUMPTIONS,
                 explanation="same generated programs as C05; judged: callables never run for disabled statements, exactly once and at their "
                             "position for emitted ones; null stream type below the compile-time minimum (static_assert)"),
+    "C09": dict(src=["checks/C09.cpp", "engine/sched.c"], nitro=[],
+                variants={"plain": {"no_sanitize_src": ["engine/sched.c"]},
+                          "tsan": {"flags": ["-DVP_TSAN", "-DVP_NO_INTERPOSE"], "no_sanitize_src": ["engine/sched.c"]}},
+                runs=lambda tier: [{"variant": "plain"}, {"variant": "tsan"}],
+                deadline_s={"quick": 240, "thorough": 1500},
+                assumptions=["sequential consistency between scheduling points; weak memory reorderings are not modelled",
+                             "scheduling points: pthread_mutex_lock/unlock/trylock (link-time interposition, mutexes modelled by an owner table), every byte "
+                             "and three phases of every flush of the harness stream buffer, thread start/exit",
+                             "unsynchronised accesses between scheduling points are only caught by the separate free-running ThreadSanitizer pass, "
+                             "which observes the schedules that happen to run (a detector, not the deciding exploration)",
+                             "2-3 threads, 1-2 records each; preemption bound as reported per configuration"],
+                explanation="stateless preemption-bounded exploration (iterative context bounding, CHESS style) of real threads running the real "
+                            "thread-safe sinks under a cooperative scheduler; every complete schedule is judged on the bytes that reached the "
+                            "non-thread-safe stream buffer"),
 }
